@@ -157,6 +157,9 @@ Lemma rec_constant_ok t s c : rec_ok t s (rec_constant c) (c, rO).
 Proof. split; reflexivity. Qed.
 
 
+Lemma rec_ok_eq t s r d d' : rec_ok t s r d -> fst d = fst d' -> snd d = snd d' -> rec_ok t s r d'.
+Proof. intros [Hv Ht] E1 E2. unfold rec_ok. rewrite <- E1, <- E2. split; assumption. Qed.
+
 (* Neg on a variable is computed as Record::constant(0) - x *)
 Lemma rec_neg_ok t s x d t' y : good t s -> rec_ok t s x d ->
   rec_neg ops t x = Ok (t', y) ->
@@ -164,11 +167,8 @@ Lemma rec_neg_ok t s x d t' y : good t s -> rec_ok t s x d ->
 Proof.
   intros G Hx. unfold rec_neg. destruct (r_hist x) as [h|] eqn:Eh.
   - intros E. destruct (rec_binary_ok t s (Subtraction ops) (rec_constant rO) x (rO, rO) d t' y G
-                          (rec_constant_ok t s rO) Hx E) as [s' [X [Hv Ht]]].
-    exists s'. split; [exact X|]. split.
-    + rewrite Hv. unfold db, du. cbn. ring.
-    + destruct (r_hist y); [destruct Ht as [Hp Hd]; split; [exact Hp|]; rewrite Hd|rewrite Ht];
-        unfold db, du; cbn; ring.
+                          (rec_constant_ok t s rO) Hx E) as [s' [X Hy]].
+    exists s'. split; [exact X|]. eapply rec_ok_eq; [exact Hy| |]; unfold db, du; cbn; ring.
   - intros E. inversion E; subst t' y; clear E. exists s. split; [apply ext_refl; exact G|].
     destruct Hx as [Hv Ht]. rewrite Eh in Ht. split; [cbn; rewrite Hv; reflexivity|].
     unfold du. cbn [fst snd r_hist]. rewrite Ht. ring.
@@ -239,7 +239,7 @@ Proof.
 Qed.
 
 (* ------------------------------------------------------------------ the batch helpers *)
-Definition mk (h : hist) (p : R * nat) : rec := mkRec (fst p) h (snd p).
+Notation mk h := (fun p : R * nat => mkRec (fst p) h (snd p)).
 
 Lemma as_records_mk (x : cont) : as_records x = map (mk (c_hist x)) (c_data x).
 Proof. reflexivity. Qed.
@@ -279,10 +279,10 @@ Qed.
 
 Lemma both_loop_eq h f : forall xs ys t,
   each_binary ops t f (map (mk (Some h)) xs) (map (mk (Some h)) ys) =
-  let '(t', zs) := binary_both_loop ops t f xs ys in Ok (t', map (mk (Some h)) zs).
+  let '(t', zs) := binary_both_loop t f xs ys in Ok (t', map (mk (Some h)) zs).
 Proof.
   induction xs as [|[x p1] xr IH]; intros [|[y p2] yr] t; cbn; try reflexivity.
-  rewrite Nat.eqb_refl. cbn. rewrite IH. destruct (binary_both_loop ops _ f xr yr). reflexivity.
+  unfold rec_binary. cbn. rewrite Nat.eqb_refl. cbn. rewrite IH. destruct (binary_both_loop _ f xr yr). reflexivity.
 Qed.
 
 Lemma x_loop_eq h f : forall xs ys t,
@@ -290,7 +290,7 @@ Lemma x_loop_eq h f : forall xs ys t,
   let '(t', zs) := binary_x_loop ops t f xs ys in Ok (t', map (mk (Some h)) zs).
 Proof.
   induction xs as [|[x p1] xr IH]; intros [|[y p2] yr] t; cbn; try reflexivity.
-  rewrite IH. destruct (binary_x_loop ops _ f xr yr). reflexivity.
+  unfold rec_binary. cbn. rewrite IH. destruct (binary_x_loop ops _ f xr yr). reflexivity.
 Qed.
 
 Lemma y_loop_eq h f : forall xs ys t,
@@ -298,7 +298,7 @@ Lemma y_loop_eq h f : forall xs ys t,
   let '(t', zs) := binary_y_loop ops t f xs ys in Ok (t', map (mk (Some h)) zs).
 Proof.
   induction xs as [|[x p1] xr IH]; intros [|[y p2] yr] t; cbn; try reflexivity.
-  rewrite IH. destruct (binary_y_loop ops _ f xr yr). reflexivity.
+  unfold rec_binary. cbn. rewrite IH. destruct (binary_y_loop ops _ f xr yr). reflexivity.
 Qed.
 
 Lemma none_loop_eq f : forall xs ys t,
@@ -306,7 +306,7 @@ Lemma none_loop_eq f : forall xs ys t,
   Ok (t, map (mk None) (map (fun p => (bf f (fst (fst p)) (fst (snd p)), 0)) (combine xs ys))).
 Proof.
   induction xs as [|[x p1] xr IH]; intros [|[y p2] yr] t; cbn; try reflexivity.
-  rewrite IH. reflexivity.
+  unfold rec_binary. cbn. rewrite IH. reflexivity.
 Qed.
 
 End C06.
